@@ -402,7 +402,7 @@ func (m *c02SeqMon) Step(w *sessmc.World, e *sessmc.Event, obs []sessmc.Obs) (st
 func init() {
 	variantDefs["C02/seq"] = func(cfg sessmc.Config) searchSpec {
 		alpha := []*sessmc.Event{sessmc.EvConnect(), sessmc.EvDisconnect(), sessmc.EvLogon(0, 0, ""), sessmc.EvLogon(0, 1, "Y"), sessmc.EvIn("D", 0, false), sessmc.EvIn("1", 0, false, fixscan.Field{Tag: 112, Value: "T"}),
-			sessmc.EvIn("D", 2, false), sessmc.EvIn("2", 0, false, fixscan.Field{Tag: 7, Value: "1"}, fixscan.Field{Tag: 16, Value: "0"}), sessmc.EvSend(), sessmc.EvFlush(),
+			sessmc.EvIn("D", 2, false), sessmc.EvIn("2", 0, false, fixscan.Field{Tag: 7, Value: "1"}, fixscan.Field{Tag: 16, Value: "0"}), sessmc.EvSend(), sessmc.EvSendSame(), sessmc.EvFlush(),
 			sessmc.EvTimeout(quickfix.VerifNeedHeartbeat), sessmc.EvTimeout(quickfix.VerifPeerTimeout), sessmc.EvStop(), sessmc.EvIn("5", 0, false),
 			sessmc.EvWindowCloses(), sessmc.EvRestart()}
 		if cfg.FileDir != "" {
